@@ -163,6 +163,12 @@ def pcr_cases(thorough, seed):
                        # two ORGs in one program may be refused altogether (C02); accepted, the branch has to reach the label, and a
                        # short branch that cannot must never be accepted
                        "valid": None if valid else False, "mn": mn}
+    # ... and label,PCR operands to such a label: 8-bit only if the real displacement fits, else 16-bit or a diagnostic
+    for first, second in ((0x20C0, 0x2000), (0x2085, 0x2000), (0x2084, 0x2000), (0x1F90, 0x2000), (0x1F80, 0x2000), (0x0100, 0x2000), (0x2100, 0x2000), (0x2000, 0x2000)):
+        for mn, op in (("LEAX", "T,PCR"), ("LDA", "[T,PCR]"), ("LDY", "T+1,PCR"), ("JMP", "T,PCR")):
+            lines = ["T ORG $%X\n" % first, " ORG $%X\n" % second, "S %s %s\n" % (mn, op), " NOP\n"]
+            yield {"id": "leadorgpcr/%s/%X/%X" % (mn, first, second), "lines": lines, "form": "pcr.label-before-leading-org", "traits": {"ind": "[" in op, "zone": "n/a"},
+                   "src": [("S", "T", 1 if "+1" in op else 0)], "valid": None, "mn": mn}
     # branches whose span contains 8-bit and 16-bit label,PCR statements
     for bm in ("BRA", "BNE", "LBRA", "BSR"):
         for npcr in (1, 2, 3):
